@@ -24,7 +24,7 @@ from mc.props._solve_common import DT, EPS, shp, bcast_shape
 ID = "C01"
 LEVEL = "exploration"
 DESIGN_REF = "DESIGN.md §5 C01"
-RULE = ("case = one point of the union of twelve complete sub-lattices (op / batch / opt / rhs / slice / reject / scale / mix / colscale / budget / sing / "
+RULE = ("case = one point of the union of thirteen complete sub-lattices (op / batch / opt / rhs / slice / reject / scale / mix / colscale / inplace / budget / sing / "
         "f32, see module docstring) over operator kind (17) x method (7) x {no E, E, E+M, M only} x E dtype x "
         "spectrum class (SPD, indefinite Hermitian, non-normal non-Hermitian) x n x ncols x batch shapes of "
         "(A, B, E, M) x dtype x (tolerance, posdef, max_niter, resid_calc_every | Broyden maxiter, line_search, "
@@ -35,7 +35,7 @@ RULE = ("case = one point of the union of twelve complete sub-lattices (op / bat
         "except gmres; zero right-hand side => exact zeros; slices agree with the batched result.  Agreement "
         "with torch.linalg.solve and between methods is implied by the residual bound (error <= bound / "
         "sigma_min) and is evaluated as such.  distinct = distinct observation hashes; trivial = rejected points")
-RULE_ADDED = 'Planes added later: mix (two systems of very different conditioning and right-hand-side norm in one call, as batch elements or as shifted columns); rhs plane with E / M batch dimensions that A and B do not have; call-order plane in fresh interpreters. Round 4: budget (cg with default / exact iteration budgets on tiny HPD systems), sing (exactly singular large batch element next to a well-conditioned small one), right-hand side of norm 1e-9 in the scale plane. Rounds 5-6: batch plane with n = ncols coinciding with batch lengths (2, 3); clustered (nearly coinciding, different) shifts. Round 7: colscale (columns / batch elements of the right-hand side differing in norm by 1e2 / 1e3 in one call, standard tolerances, 6 / 24 numeric instances per point incl. matrices with eigenvalues spread over a disk; the harness counts the adjoint products, so the stopping test of the system that was iterated on is the one demanded).'
+RULE_ADDED = 'Planes added later: mix (two systems of very different conditioning and right-hand-side norm in one call, as batch elements or as shifted columns); rhs plane with E / M batch dimensions that A and B do not have; call-order plane in fresh interpreters. Round 4: budget (cg with default / exact iteration budgets on tiny HPD systems), sing (exactly singular large batch element next to a well-conditioned small one), right-hand side of norm 1e-9 in the scale plane. Rounds 5-6: batch plane with n = ncols coinciding with batch lengths (2, 3); clustered (nearly coinciding, different) shifts. Round 7: colscale (columns / batch elements of the right-hand side differing in norm by 1e2 / 1e3 in one call, standard tolerances, 6 / 24 numeric instances per point incl. matrices with eigenvalues spread over a disk; the harness counts the adjoint products, so the stopping test of the system that was iterated on is the one demanded); inplace (one operator object, its tensors scaled in place by the caller between two solves, second solve also under no_grad).'
 ASSUMPTIONS = [
     "numeric content: A = L A0 L^H, M = L L^H with A0 = Q (diag(lam) [+ 0.3 T]) Q^H, lam = +-linspace(1, kappa), "
     "L Hermitian with spectrum in [1, 2]; shifts e_c from a fixed per-spectrum alphabet away from the spectrum; "
@@ -413,6 +413,29 @@ def _plane_colscale(tier):
     return out
 
 
+def _plane_inplace(tier):
+    """one operator object used for two solves, the caller scales every tensor of the operator IN PLACE (times 1.25)
+    between them (tensors do not require grad; second call also under torch.no_grad()): the second result is the
+    solution of the operator as it is then"""
+    out = []
+    kinds = ["dense", "mv", "mvrmv", "full", "add", "sub", "scale2", "adj"] if tier == "quick" else \
+        ["dense", "dense_h", "mv", "mvrmv", "full", "mv_h", "add", "add_h", "sub", "scale2", "scale2_mv", "scaleneg",
+         "adj", "adj_mv"]
+    for dtype in ["f64", "c128"]:
+        for spec in SPECS:
+            for kind in kinds:
+                if not kind_ok(kind, spec, dtype, ""):
+                    continue
+                for (em, ed) in [("none", "-"), ("EM", "real")]:
+                    for method in ("exactsolve", "custom_exactsolve", "cg", "bicgstab"):
+                        for nograd in (False, True):
+                            c = mk(plane="inplace", method=method, opkind=kind, E=em, Edtype=ed, dtype=dtype,
+                                   spec=spec, n=4, ncols=2, kappa=3.0, tol="tight", **_pat(em, ("", "", "", "")))
+                            c["nograd"] = nograd
+                            out.append(c)
+    return out
+
+
 def _plane_precond(tier):
     """documented preconditioner options of the Krylov methods (Jacobi preconditioner diag(A)^-1 as a
     LinearOperator): cg(precond), bicgstab(precond_l / precond_r / both).  The solution does not depend on the
@@ -479,6 +502,7 @@ def cases(tier, seed):
     out += _plane_scale(tier)
     out += _plane_mix(tier)
     out += _plane_colscale(tier)
+    out += _plane_inplace(tier)
     out += _plane_budget(tier)
     out += _plane_sing(tier)
     out += _plane_precond(tier)
@@ -490,7 +514,7 @@ def cases(tier, seed):
     out += _plane_slice(tier)
     out += _plane_f32(tier)
     # canonical order: simplest first (stable sort on a few size keys)
-    order = {"reject": 0, "op": 1, "batch": 2, "rhs": 3, "slice": 4, "f32": 5, "opt": 6, "scale": 7, "mix": 8, "colscale": 8.5, "budget": 9, "sing": 10, "precond": 11}
+    order = {"reject": 0, "op": 1, "batch": 2, "rhs": 3, "slice": 4, "f32": 5, "opt": 6, "scale": 7, "mix": 8, "colscale": 8.5, "inplace": 8.7, "budget": 9, "sing": 10, "precond": 11}
     out.sort(key=lambda c: (order[c["plane"]], c["vseed"] != 0, c["n"] * c["ncols"]))
     return out
 
@@ -803,6 +827,25 @@ def run_case(cfg):
     status = "ok"
     if o.exc is None and o.warned:
         status = "warned"
+
+    if cfg["plane"] == "inplace" and o.exc is None and not viol:
+        A_old = p["A"].clone()
+        seen_ids = set()
+        with torch.no_grad():
+            for t in A.getlinopparams():
+                if id(t) not in seen_ids:
+                    seen_ids.add(id(t))
+                    t.mul_(1.25)
+        p = dict(p, A=A_old * 1.25)
+        if cfg.get("nograd"):
+            with torch.no_grad():
+                o2 = run_solve(cfg, A, p["B"], p["E"], M)
+        else:
+            o2 = run_solve(cfg, A, p["B"], p["E"], M)
+        nexec += 1
+        v2, obs2, _, _ = judge(cfg, p, A, M, o2, batch, tag="after-inplace-update:")
+        viol.extend(v2)
+        obs["second"] = obs2.get("ratio")
 
     if cfg["plane"] == "slice" and o.exc is None and not viol and not o.warned:
         x = o.value.detach()
